@@ -113,10 +113,10 @@ def build(spec, weather_df=None):
         kw["field_management"] = FieldMngt(**spec["fm"])
     if spec.get("ffm") is not None:
         kw["fallow_field_management"] = FieldMngt(**spec["ffm"])
-    gw = spec.get("gw")
+    gw = spec.get("gw") or spec.get("gw_off")      # "gw_off": a GroundWater object with water_table='N'
     if gw is not None:
         kw["groundwater"] = GroundWater(
-            water_table="Y", method=gw.get("method", "Constant"),
+            water_table=("N" if gw.get("switched_off") else "Y"), method=gw.get("method", "Constant"),
             dates=list(gw["dates"]), values=list(gw["values"]),
         )
     co2 = spec.get("co2")
